@@ -126,7 +126,7 @@ def corr_objects_x(check, tier):
     from spyne.util.xml import get_object_as_xml
     from spyne.protocol.xml import XmlDocument
     rng = check.rng
-    n_univ = 8 if tier == 'quick' else 100
+    n_univ = 8 if tier == 'quick' else 60
     per_class = 4 if tier == 'quick' else 10
     prots = {False: XmlDocument(), True: XmlDocument(validator='soft')}
     for ui in range(n_univ):
@@ -379,7 +379,7 @@ def corr_calls(check, tier):
     from lxml import etree
     from spyne.server.wsgi import WsgiApplication
     rng = check.rng
-    n_worlds = 8 if tier == 'quick' else 60
+    n_worlds = 8 if tier == 'quick' else 40
     per_method = 2 if tier == 'quick' else 5
     for wi in range(n_worlds):
         w = World(rng)
